@@ -54,11 +54,16 @@ pub fn main_deletestress(args: &[String]) -> i32 {
             let mut returned_at = None;
             let total = publishers * per;
             let mut deletion = deletion;
+            let give_up = std::time::Instant::now() + Duration::from_secs(10);
             loop {
                 tokio::select! {
                     biased;
                     _ = &mut deletion => { returned_at = Some(completed.load(Ordering::SeqCst)); break; }
                     _ = tokio::task::yield_now() => {
+                        if std::time::Instant::now() > give_up {
+                            // neither the publishers nor the deletion get anywhere: wedged
+                            break;
+                        }
                         if completed.load(Ordering::SeqCst) >= total {
                             // every publisher is done: give the deletion a last chance
                             for _ in 0..2000 { tokio::task::yield_now().await; }
@@ -73,7 +78,13 @@ pub fn main_deletestress(args: &[String]) -> i32 {
                 None => unfinished += 1,
             }
             for t in tasks {
+                if returned_at.is_none() {
+                    t.abort();
+                }
                 let _ = t.await;
+            }
+            if unfinished > 0 {
+                break;
             }
         }
     });
